@@ -572,13 +572,14 @@ theorem restart_readInv_C7c (y : Sys) (r : RefLog) (m : Option LogId) (cfg' : Cf
     openStore_ck_C7c cfg' hinv hinf hp hlinked
   have hopen : ({ (y.step .drop) with cfg := cfg' } : Sys).open =
       (.ok (), { ({ (y.step .drop) with cfg := cfg' } : Sys) with
-        fs := y.fs, store := some s',
-        worker := { files := [⟨s.openId, prevLastOf s.closed⟩] }, locked := true }, []) := by
+        fs := y.fs.syncAll s.chunkIds, store := some s',
+        worker := { files := [⟨s.openId, prevLastOf s.closed⟩] }, locked := true },
+        syncEvs s.chunkIds) := by
     simp only [Sys.step, Sys.open, d2, d1, ho]
     simp
   have hy2 : (y.step .drop).step (.openWith cfg') =
       { ({ (y.step .drop) with cfg := cfg' } : Sys) with
-        fs := y.fs, store := some s',
+        fs := y.fs.syncAll s.chunkIds, store := some s',
         worker := { files := [⟨s.openId, prevLastOf s.closed⟩] }, locked := true } := by
     show ({ (y.step .drop) with cfg := cfg' } : Sys).open.2.1 = _
     rw [hopen]
@@ -609,7 +610,7 @@ theorem restart_readInv_C7c (y : Sys) (r : RefLog) (m : Option LogId) (cfg' : Cf
     · rcases hl.1 with h1 | ⟨c, hcm, h1⟩
       · exact .inl (by rw [e1]; exact h1)
       · exact .inr ⟨c, by rw [c3]; exact hcm, h1⟩
-    · simp only [chunkBytes, f1, hinf, c5, hp, e1, List.append_nil]
+    · simp only [chunkBytes, f1, hinf, c5, hp, e1, List.append_nil, fdata_syncAll]
   · -- clast
     intro x hx c hcm hid
     rw [c2] at hx; rw [c3] at hcm
